@@ -14,3 +14,4 @@ pub mod project;
 pub mod c14;
 pub mod c15;
 pub mod c16;
+pub mod c17;
